@@ -218,7 +218,49 @@ func genC16(e *emitter) {
 		}
 		fmt.Fprintf(&b, "  (%s.toList, %s.toList, %s)%s  -- %s\n", leanStr(a.Func), leanStr(a.Target), leanBool(a.Locked), sep, a.Pos)
 	}
-	b.WriteString("]\n\nend KM.Gen\n")
+	b.WriteString("]\n\n")
+	// who removes a pending hardware-token login challenge, and who looks one up
+	var removers, readers []string
+	seenR, seenL := map[string]bool{}, map[string]bool{}
+	p.eachFunc(func(fd *ast.FuncDecl) {
+		if fd.Body == nil {
+			return
+		}
+		ast.Inspect(fd.Body, func(n ast.Node) bool {
+			switch x := n.(type) {
+			case *ast.CallExpr:
+				if id, ok := x.Fun.(*ast.Ident); ok && id.Name == "delete" && len(x.Args) == 2 {
+					if sel, ok := x.Args[0].(*ast.SelectorExpr); ok && sel.Sel.Name == "localAuthData" && !seenR[fd.Name.Name] {
+						seenR[fd.Name.Name] = true
+						removers = append(removers, fd.Name.Name)
+					}
+				}
+			case *ast.IndexExpr:
+				if sel, ok := x.X.(*ast.SelectorExpr); ok && sel.Sel.Name == "localAuthData" && !seenL[fd.Name.Name] {
+					seenL[fd.Name.Name] = true
+					readers = append(readers, fd.Name.Name)
+				}
+			}
+			return true
+		})
+	})
+	sort.Strings(removers)
+	sort.Strings(readers)
+	b.WriteString("/-- functions that `delete(state.localAuthData, …)` / that index `state.localAuthData[…]` -/\n")
+	fmt.Fprintf(&b, "def challengeRemovers : List (List Char) := %s\n", leanCharLists(removers))
+	fmt.Fprintf(&b, "def challengeIndexers : List (List Char) := %s\n", leanCharLists(indexersOrEmpty(readers)))
+	b.WriteString("\nend KM.Gen\n")
 	e.lean("C16.lean", b.String())
 	e.facts["c16_accesses"] = acc
+	e.facts["c16_challenge_removers"] = removers
+}
+
+func indexersOrEmpty(l []string) []string { return l }
+
+func leanCharLists(l []string) string {
+	var parts []string
+	for _, x := range l {
+		parts = append(parts, leanStr(x)+".toList")
+	}
+	return "[" + strings.Join(parts, ", ") + "]"
 }
